@@ -143,3 +143,33 @@ pub fn run_packet_c12(buf: &[u8]) -> Vec<u64> {
     }
     v
 }
+
+// ---- C15 ----
+pub fn run_tsb(buf: &[u8]) -> Vec<u64> {
+    let mut v = vec![];
+    enc_ts_result(&Timestamp::from_bytes(buf), &mut v);
+    enc_ts_result(&Timestamp::from_pts_bytes(buf), &mut v);
+    enc_ts_result(&Timestamp::from_dts_bytes(buf), &mut v);
+    v
+}
+pub fn run_tsu(x: u64) -> Vec<u64> {
+    let t = Timestamp::from_u64(x);
+    let _ = format!("{:?}", t);
+    vec![t.value(), b(t.value() <= Timestamp::MAX.value())]
+}
+pub fn run_tsw(a: u64, since: u64) -> Vec<u64> {
+    vec![b(Timestamp::from_u64(a).likely_wrapped_since(Timestamp::from_u64(since)))]
+}
+pub fn run_crp(base: u64, ext: u64) -> Vec<u64> {
+    let mut v = vec![];
+    if ext > 0xffff { panic!("extension does not fit u16"); }
+    let c = ClockRef::from_parts(base, ext as u16);
+    let _ = format!("{:?}", c);
+    enc_clockref(&c, &mut v);
+    v
+}
+pub fn run_crs(d: &[u8]) -> Vec<u64> {
+    let mut v = vec![];
+    enc_clockref(&ClockRef::from_slice(d), &mut v);
+    v
+}
